@@ -647,6 +647,19 @@ func (s *scope) storeOutputs(descriptor *Descriptor, info *reflection.Constructo
 
 		key := instanceKey{Type: sibling.Type, Key: sibling.Key, Group: sibling.Group}
 
+		// The constructor ran again because the output that was asked for was nil the
+		// first time: the instance this scope (or the provider) already serves for the
+		// sibling stays the service, the new one is only owned so that it is disposed
+		if sibling != descriptor && s.serves(sibling, key) {
+			owned := *sibling
+			owned.Lifetime = Transient
+			if err := s.setInstance(&owned, key, value); err != nil && setErr == nil {
+				setErr = err
+			}
+			stored = append(stored, value)
+			continue
+		}
+
 		// The same instance under a further identity (As aliases, `return b, b`) is
 		// made resolvable there but owned, and later disposed, only once
 		if alreadyStored(stored, value) {
@@ -675,6 +688,19 @@ func (s *scope) storeOutputs(descriptor *Descriptor, info *reflection.Constructo
 	}
 
 	return requested, nil
+}
+
+// serves reports whether an instance is already cached for a singleton or scoped descriptor.
+func (s *scope) serves(descriptor *Descriptor, key instanceKey) bool {
+	switch descriptor.Lifetime {
+	case Singleton:
+		_, ok := s.rootProvider.getSingleton(key)
+		return ok
+	case Scoped:
+		_, ok := s.getInstance(key)
+		return ok
+	}
+	return false
 }
 
 // alreadyStored reports whether value is identical to one of the instances handed over before.
